@@ -382,13 +382,15 @@ def check_conc(pid, tier, seed, props, proof_obligations, trusted_common):
     samples_r = []
     release_lines = []
 
-    def absorb(results, meta):
+    def absorb(results, meta, rerun=False):
         nonlocal badhyp, n_eval, n_eq, n_ok, n_distinct, n_nontriv
         for r, (kind, exact) in zip(results, meta):
             n_eval += 1
             n_eq += 1 if r["eq"] else 0
             n_ok += 1 if r["ok"] else 0
-            if exact:
+            if rerun:
+                pass                  # the same cases on another build: not counted as distinct
+            elif exact:
                 n_distinct += 1       # enumerated cases are pairwise distinct by construction
             else:
                 h = hashlib.sha1(r["case"].encode()).digest()[:8]
@@ -409,7 +411,7 @@ def check_conc(pid, tier, seed, props, proof_obligations, trusted_common):
                 for t in outs:
                     for o in t:
                         hist[o[0] + ("-err" if o[0] == "kill" and o[2] is not None else "")] += 1
-                if exact:
+                if exact and not rerun:
                     _, _, sched = cg.decode_case(r["case"])
                     if len(sched) > min_steps(outs):
                         n_nontriv += 1
@@ -436,7 +438,7 @@ def check_conc(pid, tier, seed, props, proof_obligations, trusted_common):
         if tier == "thorough" and not violations:
             # release build as well (no overflow checks / debug assertions)
             rl = [l for l, _ in release_lines]
-            absorb(run_conc(rl, nthreads_hint=3, release=True), [m for _, m in release_lines])
+            absorb(run_conc(rl, nthreads_hint=3, release=True), [m for _, m in release_lines], rerun=True)
             gstats["re-run on the release build"] = len(rl)
     except RuntimeError as e:
         proof["failures"].append("build/execution failed: " + str(e)[-1500:])
